@@ -22,6 +22,20 @@ def peel_unwrap(e):
     return e
 
 
+def contains_ifs(node):
+    """`if [!]set.contains(x) { A } else { B }` under node: -> [(the contains call, branch taken when x is a member, other branch)]"""
+    out = []
+    for n in nodes(node, "if"):
+        cnd = unblock(n["c"])
+        neg = False
+        while cnd.get("k") == "un" and cnd.get("op") == "Not":
+            neg = not neg
+            cnd = unblock(cnd["a"])
+        if cnd.get("k") == "mcall" and cnd["m"] == "contains":
+            out.append((cnd, n.get("e") if neg else n["t"], n["t"] if neg else n.get("e")))
+    return out
+
+
 def lits(pieces):
     return [p[1] for p in pieces if p[0] == "lit"]
 
@@ -37,6 +51,9 @@ def run(chk, facts, tier, only=None):
     idl = oracle("dfinity_candid_idl.json")
     words = oracle("reserved_words.json")
     scopes = {}
+    chk.assume("injectivity of the identifier escaper is not checked (javascript::ident maps `class` and `class_` to the same `class_`)")
+    chk.assume("escape_debug is trusted as a JavaScript string escaper (it writes U+0000 as \\0, which followed by a digit is a legacy octal escape)")
+    chk.assume("the IDL builder names and reserved words are transcribed oracles (engine/oracles/*.json), not derived from the repository")
 
     def scope(key):
         if key not in scopes:
@@ -81,8 +98,9 @@ def run(chk, facts, tier, only=None):
                        f"javascript::pp_ty prints TypeInner::{X} as {got!r}; the IDL builder of Candid `{name}` is `{want}` "
                        f"(engine/oracles/dfinity_candid_idl.json)", ok_detail=f"TypeInner::{X} -> {want}")
         chk.floor("primitive constructors printed by javascript::pp_ty", n_rows, 18)
-        if X not in variants:
-            raise AnchorMissing("TypeInner variants and spec names diverge")
+        stray = [Spec.variant_name(n_) for n_ in spec.opcodes if Spec.variant_name(n_) not in variants]
+        if stray:
+            raise AnchorMissing(f"type names of the spec without a TypeInner variant: {stray}")
         # composite constructors: builder name, then the payload printed by a printer of this module
         printers = {"opt": "pp_ty", "vec": "pp_ty", "variant": "pp_fields", "func": "pp_function", "service": "pp_service"}
         for name in ("opt", "vec", "variant", "func", "service"):
@@ -381,43 +399,46 @@ def run(chk, facts, tier, only=None):
         if A is None or B is None or A.init is None or B.init is None:
             raise AnchorMissing("javascript::pp_defs: the two parts of the result are not let-bound documents")
         fa = Flat([c, cc], sc)
+        first_is_rec = any("IDL.Rec()" in x for x in lits(fa.flat(A.init)))
+        if not first_is_rec and any("IDL.Rec()" in x for x in lits(fa.flat(B.init))):
+            A, B = B, A     # the declarations are appended after the definitions: reported below
         la = lits(fa.flat(A.init))
-        declares = any("IDL.Rec()" in x for x in la) and "const" in la
-        ifs = [n for n in nodes(B.init, "if") if unblock(n["c"]).get("k") == "mcall" and unblock(n["c"])["m"] == "contains"]
+        declares = any("IDL.Rec()" in x for x in la) and "const" in la and first_is_rec
+        ifs = contains_ifs(B.init)
         if len(ifs) != 1:
             raise AnchorMissing("javascript::pp_defs: `if recs.contains(id)` not found in the definitions part")
-        cnd = unblock(ifs[0]["c"])
+        cnd, br_in, br_out = ifs[0]
         R = root_local(sc, cnd["recv"])
         it = [x for x in walk(A.init) if x.get("k") == "mcall" and x["m"] == "iter"]
         same = bool(it) and root_local(sc, it[0]["recv"]) is R is not None and R.kind == "param"
-        tl, el = lits(fa.flat(ifs[0]["t"])), lits(fa.flat(ifs[0]["e"]))
+        tl, el = lits(fa.flat(br_in)), lits(fa.flat(br_out))
         idb = root_local(sc, cnd["args"][0])
         defs_iter = [x for x in walk(B.init) if x.get("k") == "mcall" and x["m"] == "iter"]
         D = root_local(sc, defs_iter[0]["recv"]) if defs_iter else None
         okfill = ".fill" in tl and "const" not in tl and "const" in el and " = " in el and ".fill" not in el
         chk.expect(declares and same, "pp_defs:rec-declared-first",
                    f"javascript::pp_defs must emit `const x = IDL.Rec();` for every member of `recs` before the definitions "
-                   f"(declaration block found: {declares}, iterates the set tested by contains: {same})",
+                   f"(declaration block found and appended first: {declares}, iterates the set tested by contains: {same})",
                    ok_detail="recs.iter() -> const x = IDL.Rec(); appended before the definitions")
         chk.expect(okfill and idb is not None and idb.kind == "closure" and D is not None and D.kind == "param" and D is not R,
                    "pp_defs:fill-iff-rec",
-                   f"javascript::pp_defs must print `x.fill(..)` exactly when recs.contains(x) and `const x = ..` otherwise; then-branch literals {tl}, "
-                   f"else-branch literals {el}", ok_detail="recs.contains(id) ? id.fill(ty) : const id = ty")
+                   f"javascript::pp_defs must print `x.fill(..)` exactly when recs.contains(x) and `const x = ..` otherwise; literals printed for a "
+                   f"member of recs: {tl}, for a non-member: {el}", ok_detail="recs.contains(id) ? id.fill(ty) : const id = ty")
         # (c) pp_actor: .getType() exactly for recs
         h = fn("pp_actor")
         sc = scope(h["key"])
         vbs = var_binders(sc)
-        ifs = [n for n in nodes(h["body"], "if") if unblock(n["c"]).get("k") == "mcall" and unblock(n["c"])["m"] == "contains"]
+        ifs = contains_ifs(h["body"])
         if len(ifs) != 1 or len(vbs) != 1:
             raise AnchorMissing("javascript::pp_actor: `if recs.contains(id)` in the Var arm not found")
-        cnd = unblock(ifs[0]["c"])
+        cnd, br_in, br_out = ifs[0]
         fa = Flat([c, cc], sc)
-        tl, el = lits(fa.flat(ifs[0]["t"])), lits(fa.flat(ifs[0]["e"]))
+        tl, el = lits(fa.flat(br_in)), lits(fa.flat(br_out))
         R = root_local(sc, cnd["recv"])
         chk.expect(".getType()" in tl and ".getType()" not in el and root_local(sc, cnd["args"][0]) is vbs[0] and R is not None
                    and R.kind == "param" and "BTreeSet" in (R.ty or ""), "pp_actor:getType-iff-rec",
                    f"javascript::pp_actor must append `.getType()` to the actor's type name exactly when it is in `recs` (an IDL.Rec() is not a "
-                   f"service type); then-branch {tl}, else-branch {el}", ok_detail="recs.contains(id) ? id.getType() : id")
+                   f"service type); literals for a member of recs: {tl}, for a non-member: {el}", ok_detail="recs.contains(id) ? id.getType() : id")
         # (d) compile: lists and recursion sets handed to the printers
         h = fn("compile")
         sc = scope(h["key"])
